@@ -188,7 +188,7 @@ func needsUpdate(backend Database, strat UpdateStrategy, alias string, cfg *conf
 		return true
 	}
 
-	if strat&UpdateMissing > 0 && (build.Certificate == nil || build.PrivateKey == nil) {
+	if strat&UpdateMissing > 0 && (build.Certificate == nil || (build.PrivateKey == nil && build.Request == nil)) {
 		logging.Debugf("%v needs update. reason: certificate or private key is missing", cfg.Alias)
 		return true
 	}
